@@ -139,7 +139,9 @@ class Machine(RuleBasedStateMachine):
         self.h = Harness()
 
     def _do(self, op):
-        fails = self.h.apply(op)
+        finished, fails = runner.time_limited(lambda: self.h.apply(op), self._stats, "step")
+        if not finished:
+            return
         unknown = runner.triage(PID, self.h.case(), fails, self._stats)
         if unknown:
             case = self.h.case()
